@@ -2,6 +2,7 @@
 Correspondence: real library (harness/drive_comp.c) vs specification S and models M extracted from Coq
 (extract/comp_main.ml) on generated histories.  See design.d/C05.md."""
 import os
+import re
 import zlib
 import vcommon as vc
 
@@ -112,6 +113,168 @@ def gen_coder(r):
     if r.random() < 0.3:
         start, ln = r.choice([(8 * sz - 1, 8 * sz), (8 * sz - 1, 1), (0, 1), (7, 8), (min(8 * sz - 1, 8), min(8 * sz - 1, 8) + 1)])
     return (2, [nt, r.randrange(2), r.randrange(2), start, ln], sz)
+
+
+def gen_sizes():
+    """internal buffer sizes of the coders and of bit I/O, as regenerated from the sources into coq/gen/Gen_Comp.v"""
+    txt = open(os.path.join(vc.COQ, "gen", "Gen_Comp.v")).read()
+    d = {m.group(1): int(m.group(2)) for m in re.finditer(r"Definition ([A-Z_0-9]+) : Z := \(?(-?\d+)\)?\.", txt)}
+    need = ["RLE_BUF_SIZE", "TMP_BUF_SIZE", "SKP_TMP_BUF_SIZE", "NBIT_BUF_SIZE", "BITBUF_SIZE", "DEFLATE_BUF_SIZE",
+            "DEFLATE_TMP_BUF_SIZE"]
+    for k in need:
+        if k not in d or d[k] <= 0 or d[k] > (1 << 20):
+            raise vc.BuildError("buffer size %s not available from Gen_Comp.v (%s)" % (k, d.get(k)))
+    return d
+
+
+def around(r, b, kmax=2):
+    """a length / offset aimed at a multiple of buffer size b: k*b + {-1, 0, +1, small}"""
+    return max(1, r.randrange(1, kmax + 1) * b + r.choice([-1, 0, 1, 1, r.randrange(2, 200)]))
+
+
+def gen_boundary_element(r, sizes, which):
+    """an element longer than twice the coder's largest internal buffer, written in a few calls, then read with
+    reads and seeks whose lengths / distances are 1x, 2x the buffer sizes +-1 (forward from 0, forward from the
+    middle, backward then forward), on a new id after reopen and on the writing id"""
+    if which == "none":
+        coder, p, unit, bufs = 0, [0] * 5, 1, [sizes["BITBUF_SIZE"]]
+    elif which == "rle":
+        coder, p, unit, bufs = 1, [0] * 5, 1, [sizes["TMP_BUF_SIZE"], sizes["RLE_BUF_SIZE"]]
+    elif which == "skp":
+        coder, p, unit, bufs = 3, [r.choice([1, 2, 3, 4, 8])] + [0] * 4, 1, [sizes["SKP_TMP_BUF_SIZE"], sizes["BITBUF_SIZE"]]
+    elif which == "defl":
+        coder, p, unit, bufs = 4, [r.randrange(0, 10)] + [0] * 4, 1, [sizes["DEFLATE_TMP_BUF_SIZE"], sizes["DEFLATE_BUF_SIZE"]]
+    else:
+        nt = r.choice([20, 21, 22, 23])
+        sz = NT[nt]
+        ln = r.choice([8 * sz, 8 * sz - 1, 8 * sz - 3])
+        coder, p, unit, bufs = 2, [nt, r.randrange(2), r.randrange(2), 8 * sz - 1, ln], sz, [sizes["BITBUF_SIZE"], sizes["NBIT_BUF_SIZE"]]
+    big = bufs[0]
+    n = 2 * big + r.choice([1, 2, 3, r.randrange(4, 300)])
+    n += (-n) % unit
+    kind = r.choice(["rand", "rand", "mixed"])
+    if kind == "rand":
+        data = [r.randrange(256) for _ in range(n)]
+    else:
+        data = gen_data(r, n, unit)
+        data += [r.randrange(256) for _ in range(n - len(data))]
+    ops, i = [], 0
+    cuts = sorted(set([0, n] + [min(n, (around(r, b) // unit) * unit) for b in bufs[:1]]))
+    for a, b2 in zip(cuts, cuts[1:]):
+        ops.append("W %d %s" % (b2 - a, " ".join(map(str, data[a:b2]))))
+
+    def aimed(ops):
+        pos = 0
+        targets = []
+        for b in bufs:
+            targets += [b - 1, b, b + 1, 2 * b - 1, 2 * b, 2 * b + 1, around(r, b)]
+        r.shuffle(targets)
+        for t in targets[:r.randrange(5, 9)]:
+            t = min(n, t - t % unit)
+            c = r.random()
+            if c < 0.45:
+                # forward skip of about t bytes from a small offset (restart + skip when going backwards)
+                small = r.choice([0, unit, 7 * unit])
+                ops.append("S %d" % small)
+                ops.append("S %d" % min(n, small + t))
+                pos = min(n, small + t)
+            elif c < 0.8:
+                ops.append("S %d" % t)
+                pos = t
+            else:
+                ops.append("S 0")
+                k = min(n, t)
+                ops.append("R %d" % k)
+                pos = k
+            left = n - pos
+            if left > 0:
+                k = min(left, r.choice([unit, 3 * unit, 40 * unit, max(unit, (bufs[-1] + 1) - (bufs[-1] + 1) % unit)]))
+                ops.append("R %d" % k)
+                pos += k
+    if r.random() < 0.5:
+        aimed(ops)
+    ops += ["E", "Z", "X"]
+    if r.random() < 0.7:
+        ops.append("C")
+    ops.append("OR")
+    aimed(ops)
+    ops.append("E")
+    return "E %d %s %d %s" % (coder, " ".join(map(str, p)), len(ops), " ".join(ops))
+
+
+def gen_bit_block_case(r, sizes):
+    """bit element stored with Hputelement: k whole 4096-byte bit-I/O blocks plus a SHORT last block; reads of every
+    width that cross block boundaries through both refill paths (whole-byte loop: widths >= 8, partial byte: 1..7),
+    then bit seeks inside the last block, back into earlier blocks and forward again"""
+    B = sizes["BITBUF_SIZE"]
+    k = r.choice([1, 1, 2])
+    L = k * B + r.choice([1, 2, 5, 100, 196, r.randrange(1, B - 1)])
+    data = [r.randrange(256) for _ in range(L)]
+    total = 8 * L
+    ops = ["or"]
+    pos = 0
+
+    def rd(c):
+        nonlocal pos
+        c = min(c, total - pos)
+        if c > 0:
+            ops.append("r %d" % c)
+            pos += c
+
+    def sk(p):
+        nonlocal pos
+        p = max(0, min(total, p))
+        ops.append("s %d %d" % (p // 8, p % 8))
+        pos = p
+    style = r.choice(["seq", "jump", "jump"])
+    if style == "seq":
+        # sequential reads from shortly before the first boundary to shortly behind the last one
+        w = r.choice([32, 17, 8, 9, 31])
+        sk(8 * (B - r.randrange(8, 60)))
+        while pos < total - 64 and pos < 8 * (B + 40):
+            rd(w if r.random() < 0.9 else r.choice([1, 7, 32]))
+    else:
+        for blk in range(1, k + 1):
+            sk(8 * (blk * B) - r.choice([1, 3, 8, 9, 17, 40, 64]))
+            for _ in range(r.randrange(1, 5)):
+                rd(r.choice([8, 16, 32, 32, 17, 9, 1, 5, 7]))
+    for _ in range(r.randrange(4, 12)):
+        c = r.random()
+        if c < 0.5:
+            sk(8 * k * B + r.randrange(0, 8 * (L - k * B)))          # inside the short last block
+        elif c < 0.75:
+            sk(r.randrange(0, total))
+        else:
+            sk(8 * r.randrange(1, k + 1) * B - r.randrange(0, 40))   # just before a block boundary
+        for _ in range(r.randrange(1, 4)):
+            rd(r.choice([1, 3, 7, 8, 9, 13, 16, 32, 32]))
+    ops.append("e 0")
+    return "BI %d %s %d %s" % (L, " ".join(map(str, data)), len(ops), " ".join(ops))
+
+
+def gen_bit_long_write_case(r, sizes, tier="quick"):
+    """bit element WRITTEN across block boundaries, then read back with seeks across them"""
+    B = sizes["BITBUF_SIZE"]
+    ops, nbits = [], 0
+    target = 8 * (B + r.choice([3, 100] if tier == "quick" else [3, 100, B // 2, B + 7]))
+    while nbits < target:
+        c = r.choice([32, 32, 32, 31, 17, 8, 3, 1])
+        ops.append("w %d %d" % (c, r.getrandbits(c)))
+        nbits += c
+    ops += ["e %d" % r.randrange(2), "x", "or"]
+    pos = 0
+    for _ in range(r.randrange(6, 14)):
+        p = r.choice([8 * B - r.randrange(0, 70), 8 * B + r.randrange(0, 70), r.randrange(0, nbits), 8 * 2 * B - r.randrange(0, 50)])
+        p = max(0, min(nbits, p))
+        ops.append("s %d %d" % (p // 8, p % 8))
+        pos = p
+        for _ in range(r.randrange(1, 4)):
+            c = min(nbits - pos, r.choice([1, 7, 8, 9, 17, 32, 32]))
+            if c > 0:
+                ops.append("r %d" % c)
+                pos += c
+    ops.append("e 0")
+    return "B %d %s" % (len(ops), " ".join(ops))
 
 
 def read_phase(r, ops, n, unit):
@@ -250,15 +413,24 @@ def tools(ctx):
     return exe, mod
 
 
-def run_batch(ctx, lines, tag):
+def run_batch(ctx, lines, tag, model=True):
     exe, mod = tools(ctx)
     p = os.path.join(ctx.bdir, "harness", "c05-%s-%d.in" % (tag, os.getpid()))
     scratch = os.path.join(ctx.bdir, "harness", "c05-%s-%d.hdf" % (tag, os.getpid()))
     with open(p, "w") as fh:
         fh.write("\n".join(lines) + "\n")
+    import time
+    t0 = time.time()
     rc, R = vc.run_lines(exe, p, timeout=1500, args=[scratch])
     R = [l for l in R if l.startswith("R ") or l == "R"]
+    t1 = time.time()
+    if not model:
+        os.unlink(p)
+        if os.path.exists(scratch):
+            os.unlink(scratch)
+        return rc, R, None
     rcm, out = vc.run_lines(mod, p, timeout=1500)
+    vc.log("batch %s: %d cases, library %.1fs, model %.1fs" % (tag, len(lines), t1 - t0, time.time() - t1))
     os.unlink(p)
     if os.path.exists(scratch):
         os.unlink(scratch)
@@ -285,7 +457,10 @@ def model_lines(ctx, vlines, tag):
     p = os.path.join(ctx.bdir, "harness", "c05-%s-%d.min" % (tag, os.getpid()))
     with open(p, "w") as fh:
         fh.write("\n".join(vlines) + "\n")
+    import time
+    t0 = time.time()
     rcm, out = vc.run_lines(mod, p, timeout=1500)
+    vc.log("model V phase: %d streams, %.1fs" % (len(vlines), time.time() - t0))
     os.unlink(p)
     if rcm != 0 or len(out) != len(vlines):
         raise vc.BuildError("model driver failed on V lines (rc=%d, %d of %d)" % (rcm, len(out), len(vlines)))
@@ -378,7 +553,7 @@ def compare_tokens(line, rline, sline):
             if info["comp"] is not None and raw not in ("-", "!") and len(raw) // 2 != info["comp"] and int(s and len(s[1:]) // 2) > 0:
                 return False, "op %d: compressed size reported %d, stored %d" % (i, info["comp"], len(raw) // 2), True, info
             continue
-        if line.startswith("B") and r.startswith("x,"):
+        if line[0] == "B" and r.startswith("x,"):
             info["bitraw"] = r[2:]
             continue
         if s.startswith("b") or s.startswith("v"):
@@ -487,19 +662,24 @@ def run(ctx):
     lines += [gen_element_case(r, ctx.tier) for _ in range(n_el)]
     lines += [gen_bit_case(r, ctx.tier) for _ in range(n_bit)]
     lines += gen_header_cases(r, 60 if ctx.tier == "quick" else 600)
+    sizes = gen_sizes()
+    reps = 1 if ctx.tier == "quick" else 6
+    for _ in range(reps):
+        lines += [gen_boundary_element(r, sizes, w) for w in ("none", "rle", "skp", "defl", "defl", "nbit", "nbit")]
+        lines += [gen_bit_block_case(r, sizes) for _ in range(6)]
+        lines += [gen_bit_long_write_case(r, sizes, ctx.tier) for _ in range(1 if ctx.tier == "quick" else 2)]
     # the harness stops at a sanitizer report; restart it behind the crashing case so every case is explored
     R, S, rcs, start, mball = [], [], [], 0, {}
     while start < len(lines):
-        rc, r1, s1 = run_batch(ctx, lines[start:], "main")
-        for k, ml in MB.items():
-            mball[start + k] = ml
+        rc, r1, s1 = run_batch(ctx, lines[start:], "main", model=(start == 0))
+        if start == 0:
+            S = s1
+            mball = dict(MB)
         rcs.append(rc)
         R += r1
-        S += s1[:len(r1)]
         if len(r1) >= len(lines) - start:
             break
         R.append(None)
-        S.append(s1[len(r1)])
         start += len(r1) + 1
         if len(rcs) > 40:
             break
@@ -563,7 +743,8 @@ def run(ctx):
         for k, m in enumerate(mt):
             if m == "?":
                 break
-            if k >= len(rt) or (rt[k] != m and not (m.startswith("x,") and rt[k].startswith("x,") and rt[k][2:-2] == m[2:-2])):
+            if k >= len(rt) or (rt[k] != m and not (m.startswith("x,") and rt[k].startswith("x,") and
+                                                    rt[k][2:].startswith(m[2:-2]))):
                 ctx.violation("correspondence bit-I/O model~library broken at op %d: library %s, model %s" % (k, rt[k][:60] if k < len(rt) else "-", m[:60]),
                               "# C05: relation bw_write/br_read ~ Hbitwrite/Hbitread no longer holds\n" + lines[idx] +
                               "\n# library: " + R[idx][:600] + "\n# model:   " + ml[:600], found=False)
